@@ -310,7 +310,7 @@ def run_gen_py(listing, soft, old, acl_safe):
         config="running", args=args, downloaded_files={dev: downloaded}, failed_files={}, running={}, failed_running={},
         no_new=False, stdin=None, add_annotations=False, add_implicit=False, do_files_download=True, gens=dg,
         fetched_packages={}, failed_packages={}, device_count=1, do_print_perf=False)
-    return ann_gen._old_new_per_device(ctx, dev, None)
+    return env.call_private(ann_gen, "_old_new_per_device", ctx, dev, None)
 
 
 def judge_gen_py(listing, soft, full, safe_map, old, acl_safe):
